@@ -1,4 +1,4 @@
-REPO_FIX_COMMITS = ['2d7a94d', '41c6b34', '15c99e7', '0752c0c', '7f84765', 'af57352', 'e33a24d', '5bdc6b3', '08843a4', '3e03bb0', 'd823a64', '3ba8645', '9eda77c', 'f97803c', '7e803d3', '0853a40', '76123e6', '212f09f', '09399f0', '70a9198', '4fa07f3']
+REPO_FIX_COMMITS = ['2d7a94d', '41c6b34', '15c99e7', '0752c0c', '7f84765', 'af57352', 'e33a24d', '5bdc6b3', '08843a4', '3e03bb0', 'd823a64', '3ba8645', '9eda77c', 'f97803c', '7e803d3', '0853a40', '76123e6', '212f09f', '09399f0', '70a9198', '4fa07f3', '3f55be9', '55bbf09', '507f6b1', '5bd0742', '0f36894']
 NOT_APPLICABLE = {}
 CHECKS = {
  'C18': dict(
@@ -167,4 +167,14 @@ CHECKS = {
   note='Clipped pupils carry the weakened normalisation of C11-clipped-normalisation; frequency axis observed through '
        'view() under Agg; cut-off not judged for images formed in glass (F-number convention).',
   design='3/C11'),
+ 'C12': dict(
+  technique='Hypothesis-generated imaging lenses x analysis class x argument combinations (field / wavelength lists that '
+            'differ from the lens, counts, distortion types); differential oracle: the documented function recomputed from '
+            'rays traced independently on a twin lens, Coddington equations, ABCD paraxial chief ray, drawn-curve read-back',
+  level='Spot points/centroids/radii, ray fans, encircled energy (monotone, total), RMS-vs-field, distortion (both types, '
+        'both field kinds), grid distortion, field curvature (Coddington), pupil aberration and the real-ray / spot-size '
+        'operands are recomputed from independent traces for generated lenses and arguments. Counter-example search.',
+  note='Independent rays come from the library tracer on a twin (C02 decides the tracer); centroid clauses judged when the '
+       'reference wavelength is unambiguous; distortion judged when the paraxial scale is well conditioned.',
+  design='3/C12'),
 }
